@@ -425,6 +425,21 @@ class SimKernel(object):
     def external_exit(self, pid, code):
         return self.die(pid, status_exit(code), 'exit')
 
+    def reuse_pid(self, pid):
+        """the pid of a process that has been waited for is handed out again
+        - to a process that has nothing to do with the daemon"""
+        old = self.procs.get(pid)
+        if old is None or old.state != 'reaped':
+            return False
+        p = Proc(pid, 1, ['stranger'], {}, Behaviour(label='stranger'))
+        p.orig_parent = 1
+        p.spawn_time = self.sim.now
+        p.spawn_seq = self.sim.rec('pid_reused', pid)
+        self.reused = getattr(self, 'reused', {})
+        self.reused[pid] = old
+        self.procs[pid] = p
+        return True
+
     def external_leader_exit(self, pid):
         """the main thread of the process exits, its other threads go on"""
         p = self.procs.get(pid)
@@ -810,17 +825,27 @@ class SimPopen(_InfoMixin):
                 p.fdtable = compute_fdtable(kw)
             else:
                 p.fdtable = _fdtable_here(kw)
+        self._mine = p
         k.spawns.append(p)
         k._arm_lifetime(p)
         k._start_children(p)
         if k.on_spawn is not None:
             k.on_spawn(p)
 
+    def _reused(self):
+        """the pid now belongs to another process (psutil compares the
+        creation time and refuses)"""
+        mine = getattr(self, '_mine', None)
+        return mine is not None and \
+            self.kernel.procs.get(self.pid) is not mine
+
     def _proc(self):
         p = self.kernel.procs.get(self.pid)
         if p is None:
             # the world this object belonged to has been closed (objects of a
             # finished episode being finalised): the process is gone
+            raise _simulated(NoSuchProcess(self.pid))
+        if self._reused():
             raise _simulated(NoSuchProcess(self.pid))
         return p
 
@@ -861,7 +886,7 @@ class SimPopen(_InfoMixin):
     def send_signal(self, sig):
         k = self.kernel
         k.sim.boundary('send_signal')
-        if self._gone:
+        if self._gone or self._reused():
             raise NoSuchProcess(self.pid)
         k.send_signal_calls += 1
         if k.send_signal_calls in k.signal_fail_plan:
@@ -877,7 +902,7 @@ class SimPopen(_InfoMixin):
     def terminate(self):
         k = self.kernel
         k.sim.boundary('terminate')
-        if self._gone:
+        if self._gone or self._reused():
             raise NoSuchProcess(self.pid)
         try:
             k.signal(self.pid, SIGTERM, 'terminate')
@@ -888,6 +913,8 @@ class SimPopen(_InfoMixin):
     def kill(self):
         k = self.kernel
         k.sim.boundary('kill')
+        if self._reused():
+            raise NoSuchProcess(self.pid)
         try:
             k.signal(self.pid, SIGKILL, 'kill')
         except ProcessLookupError:
